@@ -36,6 +36,7 @@ fn run_case(lines: &[String], out: &mut impl Write) {
     let mut between: Vec<(usize, String, calloop::RegistrationToken)> = Vec::new();
     let mut keep: Vec<Box<dyn std::any::Any>> = Vec::new();
     let mut waker: Option<u64> = None;
+    let mut ndispatch = 2usize;
     let mut has_closed = false;
     for l in lines {
         let w: Vec<&str> = l.split_whitespace().collect();
@@ -56,8 +57,8 @@ fn run_case(lines: &[String], out: &mut impl Write) {
                     deadlines.push((ms, cell.clone()));
                     let f = fired.clone();
                     let mut rearm_left = rearm;
-                    let tok = h
-                        .insert_source(Timer::from_deadline(dl), move |_, _, _| {
+                    let moveto: Option<i64> = w.iter().position(|x| *x == "moveto").map(|i| w[i + 1].parse().unwrap());
+                    let disp = calloop::Dispatcher::new(Timer::from_deadline(dl), move |_, _: &mut (), _: &mut ()| {
                             f.borrow_mut().push(ms);
                             match rearm_left.take() {
                                 Some(r) => {
@@ -70,8 +71,16 @@ fn run_case(lines: &[String], out: &mut impl Write) {
                                     TimeoutAction::Drop
                                 }
                             }
-                        })
-                        .unwrap();
+                        });
+                    let tok = h.register_dispatcher(disp.clone()).unwrap();
+                    if let Some(m) = moveto {
+                        // the timer is given another deadline before it ever fired: set_deadline + update
+                        let nd = if m >= 0 { base + Duration::from_millis(m as u64) } else { base - Duration::from_millis((-m) as u64) };
+                        disp.as_source_mut().set_deadline(nd);
+                        h.update(&tok).unwrap();
+                        deadlines.last().unwrap().1.set(Some(nd));
+                    }
+                    keep.push(Box::new(disp));
                     if let Some(op) = w.iter().find(|x| **x == "cancel" || **x == "disable") {
                         between.push((deadlines.len() - 1, op.to_string(), tok));
                     }
@@ -103,16 +112,17 @@ fn run_case(lines: &[String], out: &mut impl Write) {
                 _ => {}
             },
             "waker" => waker = Some(w[1].parse().unwrap()),
+            "dispatches" => ndispatch = w[1].parse().unwrap(),
             _ => {}
         }
     }
-    for i in 0..2 {
+    for i in 0..ndispatch {
         RECORDS.lock().unwrap().clear();
         let nfired = fired.borrow().len();
         // the first dispatch of a loop holding a source whose peers are gone returns at once (it delivers the
         // close): no wake-up is scheduled for it, so that none is left over for the second one
         let dispatch_over = std::sync::Arc::new(std::sync::atomic::AtomicBool::new(false));
-        let wake_thread = waker.filter(|_| i == 1 || !has_closed).map(|ms| {
+        let wake_thread = waker.filter(|_| i >= 1 || !has_closed).map(|ms| {
             let sig = el.get_signal();
             let over = dispatch_over.clone();
             std::thread::spawn(move || {
